@@ -58,7 +58,7 @@ func generate(prop, tier string, seed uint64, run int) *Scenario {
 	}
 	switch prop {
 	case "C01":
-		return genMix(prop, seed, run, mixOpts{lagfree: 0.3, apiChurn: 0.12, shapes: allShapes, overflow: 0.12, maxOps: 36, watchFiles: 0.3, worldTasks: 3, withOps: 0.0, burst: 0.04, bigBurst: tier == "thorough"})
+		return genMix(prop, seed, run, mixOpts{lagfree: 0.3, apiChurn: 0.12, spellings: pick < 25, shapes: allShapes, overflow: 0.12, maxOps: 36, watchFiles: 0.3, worldTasks: 3, withOps: 0.0, burst: 0.04, bigBurst: tier == "thorough"})
 	case "C02":
 		return genMix(prop, seed, run, mixOpts{lagfree: 0.25, apiChurn: 0.3, shapes: allShapes, overflow: 0.05, maxOps: 36, watchFiles: 0.4, worldTasks: 2, twoClients: 0.35})
 	case "C03":
